@@ -10,24 +10,39 @@ from ..core import cstr, clist, cpair, cZ, copt
 
 ID = "C13"
 THEOREM_FILE = "Properties/C13.v"
-IMPORTS = "From Annet Require Import Base.Str Model.Json Spec.P_C13."
+IMPORTS = "From Annet Require Import Base.Str Model.Json Spec.P_C13 Spec.P_C13_arr."
 META = {
-    "text": "Proof (Coq, unbounded induction over documents and pointer lists): on documents of one schema whose "
-            "glob pointers address object members, the model of apply_json_fragment makes the result agree with the "
-            "fragment on every selected path (absent there = removed), leaves every leaf outside the selection as in "
-            "the old document, and is idempotent; apply_acl_filters returns a sub-document; make_patch/apply_patch "
-            "round-trip follows from the assumed law of the third-party diff once annet keeps the library's "
-            "operation order (sorting by path is refuted by a machine-checked witness). Correspondence: Coq "
-            "evaluates model==implementation and the property predicates on the real outputs of "
-            "apply_json_fragment, make_patch, apply_patch, apply_acl_filters over random one-schema documents "
-            "(keys with / ~ | *, arrays, nested objects) and an exhaustive small scope.",
-    "technique": "Coq induction with pointwise get/put/delete lemmas on association-list documents; section "
-                 "hypothesis for jsonpatch's diff; vm_compute differential check against the implementation",
-    "note": "Partial: the fragment theorems are proved for glob pointers that never step into an array (patterns "
-            "that do are outside the guard; on the implementation they are a listed finding); the patch round-trip "
-            "assumes the third-party jsonpatch diff is correct (Section hypothesis, checked case by case in the "
-            "correspondence, where jsonpatch 1.33 itself fails on rare array/move inputs — listed finding). "
-            "Theorems are about the Gallina model; the model is tied to /repo by the correspondence run.",
+    "text": "Proof (Coq, unbounded induction over documents and pointer lists) about the model of jsontools.py. "
+            "Fragments, regime 1 (one schema, glob pointers address object members; members are added, replaced and "
+            "removed): the result agrees with the fragment on every selected path (absent there = removed), every leaf "
+            "outside the selection is as in the old document, merging is idempotent, nothing raises. Regime 2 (glob "
+            "pointers step into and through ARRAYS, any nesting; guard: every pattern selects the same concrete pointers "
+            "— members and indices — in the old document and in the fragment): the same four laws, and the result stays "
+            "inside the guard. _resolve_json_pointers = exactly the existing paths the glob selects, for objects and "
+            "arrays (str(i) proved injective). apply_acl_filters returns a sub-document for ALL filters (arrays included). "
+            "Patches: RFC 6901 print/parse round trip for every key; a recursive object differ written in Gallina is "
+            "proved correct for all documents (its patch applied by the model of RFC 6902 gives the target up to member "
+            "order), so the hypothesis under which the make_patch/apply_patch round trip is stated for the third-party "
+            "differ is satisfiable and the round trip is unconditional for the verified differ; every reordering policy "
+            "that puts two operations into path order breaks a correct patch (sorted-by-path refuted for all tie-breaks), "
+            "for arrays of every length. Correspondence: Coq evaluates model==implementation and the property predicates "
+            "on the real outputs of apply_json_fragment, make_patch, apply_patch, apply_acl_filters over random one-schema "
+            "documents (keys with / ~ | * ? [ ]), a glob-twin family (a key spelled like the pattern next to keys the "
+            "glob matches), exhaustive small scopes for objects and for arrays, and applies the REAL library's diff with "
+            "the MODEL's apply_ops case by case.",
+    "technique": "Coq induction with pointwise get/put/replace/delete lemmas on association-list documents; section "
+                 "hypothesis for jsonpatch's diff plus a verified Gallina differ discharging it; vm_compute differential "
+                 "check against the implementation",
+    "note": "Partial: (1) fragment laws are proved in two regimes (objects only with add/remove; arrays with replace only); "
+            "the mixed regime — members added/removed by the last pointer step below an array — holds on the real code in "
+            "the exhaustive array scope but is only correspondence-tested; outside these the real code fails in exactly "
+            "three ways, each a listed finding with a machine-checked witness replayed on the real code (index or member "
+            "missing raises; array elements not removed; fragment array materialised as an object keyed by indices). "
+            "(2) The round trip through the THIRD-PARTY jsonpatch differ still rests on the Section hypothesis (checked "
+            "case by case by applying the library's operations with the model; jsonpatch 1.33 itself fails on rare "
+            "array/move inputs — listed finding); what is proved unconditionally concerns the Gallina differ, which "
+            "treats arrays as leaves. Theorems are about the Gallina model; the model is tied to /repo by the "
+            "correspondence run (0 disagreements).",
 }
 
 PLAIN = ["a", "b", "c", "d", "x1", "0", "1"]
@@ -217,6 +232,56 @@ def break_schema(rng, s, d):
     return d
 
 
+# glob-twin family: a table holds a key that is spelled exactly like the (unescaped) pattern part — a key with
+# the glob characters * ? [ ] in it — next to other keys the same glob matches; the pattern part must be
+# read as a glob (fnmatch over every key), never as "this key"
+GLOB_TWINS = [
+    ("Vlan10|*", ["Vlan10|Ethernet0", "Vlan10|Ethernet4", "Vlan10|"], ["Vlan20|Ethernet0", "Vlan1"]),
+    ("a*", ["a1", "ab", "a", "a*b"], ["b", "ba"]),
+    ("e?", ["e1", "ef", "e*"], ["e", "e12", "f1"]),
+    ("x[12]", ["x1", "x2"], ["x3", "x", "x[12]x"]),
+    ("[ab]c", ["ac", "bc"], ["cc", "abc"]),
+    ("p[!0]", ["p1", "pz", "p["], ["p0", "p"]),
+    ("*", ["a", "b/c", "~d", ""], []),
+    ("?", ["a", "1", "*"], ["ab", ""]),
+    ("k*|?", ["k|1", "kk|x", "k*|*"], ["k|", "k1"]),
+    ("[*]", ["*"], ["a", "[]"]),
+    ("n/*", ["n/1", "n/~0", "n/"], ["n", "m/1"]),
+    ("[", [], ["a", "[["]),
+    ("a]*", ["a]", "a]b"], ["a", "ab"]),
+]
+
+
+def gen_glob_twin(rng, kind):
+    g, matching, others = rng.choice(GLOB_TWINS)
+    tail = rng.choice([None, None, "x", "*"])
+    leaf_schema = ("obj", {"x": ("int",), "keep": ("int",)}) if tail else rng.choice([("int",), ("obj", {"x": ("int",)})])
+    keys = [g] + list(matching) + list(others)
+
+    def table(p_glob, keep):
+        ks = [k for k in keys if (k == g and rng.random() < p_glob) or (k != g and rng.random() < keep)]
+        if rng.random() < 0.5:
+            rng.shuffle(ks)
+        return {k: inst(rng, leaf_schema, 0.8) for k in ks}
+
+    depth = rng.choice([0, 1, 1])
+    wrap = (lambda t: {"T": t, "PORT": {"e0": 1}}) if depth else (lambda t: t)
+    pat = ("/T" if depth else "") + "/" + ptr_esc(g) + ("/" + tail if tail else "")
+    if kind == "frag":
+        # the twin key mostly on one side only: the two resolutions of the same pattern must still agree
+        pg_old, pg_f = rng.choice([(0.0, 1.0), (1.0, 0.0), (1.0, 1.0), (0.5, 0.5)])
+        old, f = wrap(table(pg_old, 0.7)), wrap(table(pg_f, 0.6))
+        acl = [pat]
+        if rng.random() < 0.25:
+            acl.insert(rng.randint(0, 1), rng.choice(["/PORT", "/T/zz", ("/T" if depth else "") + "/" + ptr_esc(glob_lit(g))]))
+        return {"kind": "frag", "old": old, "f": f, "acl": acl, "src": "glob-twin"}
+    d = wrap(table(0.9, 0.8))
+    fl = [pat]
+    if rng.random() < 0.25:
+        fl.append(("/T" if depth else "") + "/" + ptr_esc(glob_lit(g)))
+    return {"kind": "filter", "d": d, "filters": fl, "src": "glob-twin"}
+
+
 EXH_DOCS_A = [None, {}, {"x": 1}, {"x": 2, "y": 1}, {"y": 1, "x": 1}]
 EXH_DOCS_B = [None, 1, 2]
 EXH_ACLS = [["/a"], ["/a/x"], ["/a/*"], ["/*"], ["/b~1c"], ["/a/x", "/b~1c"], ["/a/y", "/a"], ["/*/x"]]
@@ -237,6 +302,28 @@ def exhaustive_frag(thorough):
         for f in docs:
             for acl in acls:
                 yield {"kind": "frag", "old": old, "f": f, "acl": acl, "src": "exhaustive"}
+
+
+# exhaustive small scope for pointers that step into / through arrays: every (old, fragment) over a few
+# array-valued members x pointer lists
+ARR_DOCS = [None, [], [1], [1, 2], [{"x": 1}], [{"x": 1}, {"x": 2}], [{"x": 1, "y": 1}], [{}, {"x": 3}],
+            [2, 1, 3], [{"y": 1}], [[1], [2, 3]], [None]]
+ARR_ACLS = [["/a/*"], ["/a/0"], ["/a/*/x"], ["/a/1"], ["/*/*"], ["/a/*", "/a/*/x"], ["/a/[0-1]"], ["/a/0/x"],
+            ["/a/*/*"], ["/a"], ["/a/-"]]
+
+
+def exhaustive_arrays(thorough):
+    docs = ARR_DOCS if thorough else ARR_DOCS[:8]
+    acls = ARR_ACLS if thorough else ARR_ACLS[:6]
+    for o in docs:
+        for f in docs:
+            for acl in acls:
+                old, fr = {"b": 1}, {}
+                if o is not None:
+                    old["a"] = copy.deepcopy(o)
+                if f is not None:
+                    fr["a"] = copy.deepcopy(f)
+                yield {"kind": "frag", "old": old, "f": fr, "acl": list(acl), "src": "exhaustive-arrays"}
 
 
 def gen_cases(ctx):
@@ -278,9 +365,16 @@ def gen_cases(ctx):
         doc = inst(rng, s)
         cases.append({"kind": "apply", "doc": doc, "ops": None, "schema_docs": [inst(rng, s), mutate(rng, s, doc)],
                       "src": "random"})
+    n_twin = 1500 if T else 260
+    rng_twin = ctx.rng("glob-twin")          # own stream: the older families keep their inputs
+    for j in range(n_twin):
+        cases.append(gen_glob_twin(rng_twin, "frag" if j % 3 else "filter"))
+    arr = list(exhaustive_arrays(T))
+    cases += arr
     ctx.coverage["input_distribution"] = {
         "exhaustive_fragment_scope": n_exh, "fragment_random": n_frag, "filter_random": n_filter,
         "patch_pairs_random": n_patch, "raw_apply_random": n_apply,
+        "glob_twin_family": n_twin, "exhaustive_array_scope": len(arr),
         "exhaustive_scope": "all (old, f) over 15 documents of the schema {a:{x,y}, 'b/c'} x %d pointer lists"
                             % (len(EXH_ACLS) if T else 6)}
     return cases
@@ -306,7 +400,13 @@ def fill_apply_ops(ctx, cases):
             continue
         doc = c["doc"]
         other = rng.choice(c.pop("schema_docs"))
-        ops = [dict(o) for o in jsonpatch.make_patch(copy.deepcopy(doc), copy.deepcopy(other)).patch]
+        try:
+            ops = [dict(o) for o in jsonpatch.make_patch(copy.deepcopy(doc), copy.deepcopy(other)).patch]
+        except TypeError:
+            # jsonpatch 1.33 itself raises on some pairs (a dict key and a list index compared while it
+            # optimises remove/add into move); this stream only needs SOME operation list
+            ops = []
+            ctx.coverage["raw_apply_library_diff_raised"] = ctx.coverage.get("raw_apply_library_diff_raised", 0) + 1
         m = rng.random()
         if m < 0.3:
             rng.shuffle(ops)
@@ -319,7 +419,8 @@ def fill_apply_ops(ctx, cases):
             if k < 0.25:
                 o = {"op": "copy", "from": p, "path": q + rng.choice(["", "/nk", "/0", "/-"])}
             elif k < 0.45:
-                o = {"op": "test", "path": p, "value": rng.choice([1, "x", None, {}])}
+                # not 1 / 0: Python's True == 1, the model's jeq keeps bool and int apart (documented limitation)
+                o = {"op": "test", "path": p, "value": rng.choice([2, "x", None, {}])}
             elif k < 0.6:
                 o = {"op": "move", "from": p, "path": q + rng.choice(["", "/nk", "/0"])}
             elif k < 0.75:
@@ -371,18 +472,29 @@ APPLY_TY = "(json * list op) * option json"
 
 FRAG_AGREE = ("fun c => let '(old, f, acl) := fst c in ojeq (apply_fragment V old f acl) (fst (snd c)) && "
               "match fst (snd c) with Some r => ojeq (apply_fragment V r f acl) (snd (snd c)) | None => true end")
-FRAG_PREDS = {"agree": FRAG_AGREE, "holds": "fun c => P_C13_frag (fst c) (snd c)"}
+FRAG_PREDS = {"agree": FRAG_AGREE, "holds": "fun c => P_C13_frag (fst c) (snd c)",
+              # container kinds on the way to a selected path (Spec/P_C13_arr.v): a fragment array must not
+              # come back as an object keyed by "0", "1", ...
+              "kinds": "fun c => P_kinds (fst c) (snd c)",
+              # counting only (false = the case is inside the replace-only guard AND some pattern steps into an array)
+              "count_arr_replace": "fun c => let '(old, f, acl) := fst c in negb (in_replace_guard (fst c) && "
+                                   "match parse_acl acl with Some pats => steps_into_array pats old || "
+                                   "steps_into_array pats f | None => false end)"}
 FRAG_CLASS = {
     "noerr": "fun c => P_noerr (fst c) (snd c)", "inside": "fun c => P_inside (fst c) (snd c)",
     "outside": "fun c => P_outside (fst c) (snd c)", "idem": "fun c => P_idem (fst c) (snd c)",
     "objects_only": "fun c => let '(old, f, acl) := fst c in match parse_acl acl with Some pats => "
                     "forallb (fun pat => objects_only pat old && objects_only pat f) pats | None => true end",
+    # guard of the replace-only theorems (C13_arr_*): every pattern selects the same pointers in old and f
+    "replace_guard": "fun c => in_replace_guard (fst c)",
+    "kinds": "fun c => P_kinds (fst c) (snd c)",
 }
 FILTER_PREDS = {"agree": "fun c => ojeq (apply_acl_filters V (fst (fst c)) (snd (fst c))) (snd c)",
                 "holds": "fun c => P_C13_filter (fst c) (snd c)"}
 PATCH_PREDS = {
     "agree": "fun c => let '(lib, p, applied) := snd c in match lib, p with "
              "| Some l, Some ops => ops_eqb (make_patch_of V l) ops && ojeq (apply_ops ops (fst (fst c))) applied "
+             "| None, None => true "          # the library's diff raised and annet's make_patch propagated it
              "| _, _ => false end",
     "holds": "fun c => let '(lib, p, applied) := snd c in P_C13_patch (fst c) applied",
     "lib_ok": "fun c => let '(lib, p, applied) := snd c in match lib with "
@@ -481,17 +593,31 @@ def evaluate(ctx, cases, outs, v, tag=""):
     # fragments
     r = run("frag", FRAG_TY, FRAG_PREDS, frag_term, "frag")
     disagree += r["agree"]
-    if r["holds"]:
-        bad = r["holds"]
+    ctx.coverage["fragment_cases_in_array_replace_guard"] = (
+        ctx.coverage.get("fragment_cases_in_array_replace_guard", 0) + len(r["count_arr_replace"]))
+    bad = sorted(set(r["holds"]) | set(r["kinds"]))
+    if bad:
         rc = core.run_case_files(ID, FRAG_TY, IMPORTS, FRAG_CLASS, [frag_term(cases[i], outs[i]) for i in bad],
                                  per_file=250, tag="fragclass" + tag, extra_defs=extra)
         for j, i in enumerate(bad):
             c = cases[i]
-            failed = [l for l in ("noerr", "inside", "outside", "idem") if j in rc[l]]
+            failed = [l for l in ("noerr", "inside", "outside", "idem", "kinds") if j in rc[l]]
             if "" in c["acl"]:
                 cls = "root-pointer"
             elif j in rc["objects_only"]:
-                cls = "pattern-steps-into-array"
+                # some pattern steps into an array.  Inside the guard of the replace-only theorems nothing may
+                # fail (that class is not a listed finding); outside it the failing clause names the sub-class,
+                # and only the three behaviours reproduced on the real code are listed findings.
+                if j not in rc["replace_guard"]:
+                    cls = "pattern-steps-into-array/inside-replace-guard"
+                elif "noerr" in failed:
+                    cls = "pattern-steps-into-array/index-or-member-missing-raises"
+                elif "inside" in failed and "outside" not in failed and "idem" not in failed:
+                    cls = "pattern-steps-into-array/elements-not-removed"
+                elif failed == ["kinds"]:
+                    cls = "pattern-steps-into-array/array-becomes-object"
+                else:
+                    cls = "pattern-steps-into-array/other"
             elif has_special_keys(c["old"], c["f"]) and not v["v_esc"]:
                 cls = "key-with-slash-or-tilde"
             elif v["v_strseq"] and steps_into_str(c["acl"], c["old"], c["f"]):
@@ -524,7 +650,11 @@ def evaluate(ctx, cases, outs, v, tag=""):
     lib_bad = set(r["lib_ok"])
     for i in r["holds"]:
         c = cases[i]
-        if i in lib_bad:
+        if "exc" in outs[i]["lib"]:
+            viol.append((i, "C13/patch/jsonpatch-make_patch-raises",
+                         f"third-party jsonpatch.make_patch({json.dumps(c['old'])}, {json.dumps(c['new'])}) raises "
+                         f"{outs[i]['lib']['exc']} (so does annet's make_patch: {json.dumps(outs[i]['patch'])})"))
+        elif i in lib_bad:
             viol.append((i, "C13/patch/jsonpatch-diff-does-not-reproduce-target",
                          f"third-party jsonpatch.make_patch({json.dumps(c['old'])}, {json.dumps(c['new'])}) applied in "
                          f"its own order does not give the target: ops={json.dumps(outs[i]['lib'])}"))
@@ -610,6 +740,10 @@ def run(ctx):
         "fnmatch sets modelled for single characters, a-b ranges and leading '!'; ASCII keys; integers only",
         "array index parts are modelled as 'the part equals str(i) for an in-range i' (canonical decimal)",
         "exceptions are compared as raised / not raised (class ignored)",
+        "jeq keeps JBool and JNum apart while Python has True == 1 (matters only for a hand-written 'test' operation "
+        "comparing a bool member with 0/1; the raw-operation stream avoids that pair)",
+        "the verified differ (Proofs/JsonDiffProofs.diff) is a Gallina function, not the library's algorithm: it shows "
+        "the Section hypothesis satisfiable; the library's own output is checked per case (lib_ok)",
     ]
 
 
